@@ -22,6 +22,7 @@ REGISTRY = {
     "C05": ("vverif.checks_types", "check_c05"),
     "C06": ("vverif.checks_names", "check_c06"),
     "C14": ("vverif.checks_names", "check_c14"),
+    "C15": ("vverif.checks_objsm", "check_c15"),
     "C09": ("vverif.checks_laws", "check_c09"),
     "C10": ("vverif.checks_laws", "check_c10"),
     "C11": ("vverif.checks_laws", "check_c11"),
